@@ -20,7 +20,7 @@ import (
 
 type c04Params struct {
 	mode  string // onest | handler | free1 | free2 | free3
-	event string // none | fin | notif-rx | handler-notif | close
+	event string // none | fin | notif-rx | handler-notif | close | rst (an UPDATE, then RST)
 	hold  int
 	// join: OnClose waits until the free writer goroutines of the session have returned from the
 	// WriteUpdate call they are in (a plugin that joins its announcer before it lets go of a session)
@@ -118,6 +118,12 @@ func c04Run(p c04Params, ch vrt.Chooser, trace bool) (*world.World, *vrt.Exec, *
 		pl.Handle = func(pp *world.Plugin, s, n int, b []byte) *corebgp.Notification {
 			if p.mode == "handler" {
 				write(pp.Writers[s-1], s, c04Body(0, n))
+				if p.event == "rst" && string(b) == "EVENT" {
+					// the connection is gone (RST) while the FSM goroutine is still in here: these writes
+					// fail, and must say so
+					write(pp.Writers[s-1], s, c04Body(0, n+1))
+					write(pp.Writers[s-1], s, c04Body(0, n+2))
+				}
 			}
 			if p.event == "handler-notif" && string(b) == "EVENT" {
 				return &corebgp.Notification{Code: 6, Subcode: 4}
@@ -145,6 +151,10 @@ func c04Run(p c04Params, ch vrt.Chooser, trace bool) (*world.World, *vrt.Exec, *
 						r.Send(wire.Notification(6, 2, nil))
 					case "handler-notif":
 						r.Send(wire.Update([]byte("EVENT")))
+					case "rst":
+						r.Send(wire.Update([]byte("EVENT")))
+						r.C.Reset()
+						return
 					}
 				}
 				r.Deadline(0)
@@ -354,12 +364,20 @@ func c04Scenarios(th bool) []*Scn {
 		w, e, o := c04StallRun(ch, trace)
 		return finishRun("C04", "stalled-reader", w, e, trace, true, func() (string, string) { return c04Judge(c04Params{mode: "free2", event: "none", hold: 9}, w, e, o) }, nil)
 	}})
+	tp := 2
+	if th {
+		tp = 3
+	}
+	out = append(out, &Scn{Name: "two-peers/hold9", Bound: tp, Run: func(ch vrt.Chooser, trace bool) *ScnResult {
+		w, e, ok := c04TwoPeersRun(ch, trace)
+		return finishRun("C04", "two-peers", w, e, trace, true, func() (string, string) { return c04TwoPeersJudge(w, ok) }, nil)
+	}})
 	bound := 2
 	if th {
 		bound = 3
 	}
 	for _, mode := range []string{"onest", "handler", "free1", "free2", "free3"} {
-		for _, ev := range []string{"none", "fin", "notif-rx", "handler-notif", "close"} {
+		for _, ev := range []string{"none", "fin", "notif-rx", "handler-notif", "close", "rst"} {
 			for _, hold := range []int{9, 0} {
 				if hold == 0 && !th && ev != "none" && ev != "close" {
 					continue
@@ -384,7 +402,7 @@ func c04Scenarios(th bool) []*Scn {
 func init() {
 	harness.Register(&harness.Check{
 		Property: "C04", Level: "model_checking", NeedsConc: true, QuickS: 200, ThoroughS: 1500,
-		Rule:   "stateless model checking of the real (rewritten) corebgp: WriteUpdate called from inside OnEstablished, from inside the handler and from 1-3 free goroutines (bodies of 0, 1, 23, 4077 bytes) whose writes coincide in virtual time with the keepalive timer (hold 9 s) and with one of {nothing, remote FIN, received NOTIFICATION, handler-returned NOTIFICATION, Close}; after a teardown corebgp reconnects and the old writers are used again; variants in which OnClose joins the writers' pending calls; all schedules within the delay bound (2 quick / 3 thorough; 3 writers: one less); strict frame parser over every byte corebgp wrote per connection, multiset/ordering comparison with the WriteUpdate return values, race detector on; plus a stalled-reader scenario on a network with a bounded window (blocked and timed-out writes: whatever is on the wire must still be whole messages and the session must end); distinct_nontrivial = distinct observable outcomes",
+		Rule:   "stateless model checking of the real (rewritten) corebgp: WriteUpdate called from inside OnEstablished, from inside the handler and from 1-3 free goroutines (bodies of 0, 1, 23, 4077 bytes) whose writes coincide in virtual time with the keepalive timer (hold 9 s) and with one of {nothing, remote FIN, received NOTIFICATION, handler-returned NOTIFICATION, Close, an UPDATE followed by RST (writes from inside the handler then fail and must report it)}; after a teardown corebgp reconnects and the old writers are used again; variants in which OnClose joins the writers' pending calls; two peers Established at once, each with a writer; all schedules within the delay bound (2 quick / 3 thorough; 3 writers: one less); strict frame parser over every byte corebgp wrote per connection, multiset/ordering comparison with the WriteUpdate return values, race detector on; plus a stalled-reader scenario on a network with a bounded window (blocked and timed-out writes: whatever is on the wire must still be whole messages and the session must end); distinct_nontrivial = distinct observable outcomes",
 		Assume: []string{"delay-bounded schedules", "virtual network (A3): net.Conn.Write is atomic with respect to concurrent writers (true for *net.TCPConn)", "race detector scope A5"},
 		Run: func(c *harness.Ctx) {
 			for i, s := range withLegacy(c04Scenarios(c.Thorough()), legacyEvery(c.Thorough(), 3)) {
@@ -408,4 +426,115 @@ func init() {
 			return nil
 		}),
 	})
+}
+
+// c04TwoPeersRun: two peers (P1 active, P2 passive) are Established at the same time and each has a
+// goroutine writing UPDATEs at the instant the keepalive timers fire: nothing of one peer's traffic may
+// show up on, or damage, the other peer's connection (state shared between sessions at package scope).
+func c04TwoPeersRun(ch vrt.Chooser, trace bool) (*world.World, *vrt.Exec, map[string][][]byte) {
+	var w *world.World
+	okWrites := map[string][][]byte{}
+	e := vrt.Run(vrt.Config{Horizon: int64(14 * time.Second), Race: true, Trace: trace, Chooser: ch}, func() {
+		w = world.New(libIP)
+		w.NewServer(libIP)
+		mk := func(peer string) *world.Plugin {
+			pl := &world.Plugin{W: w, Peer: peer, Marker: true}
+			pl.OnEst = func(pp *world.Plugin, s int, wr corebgp.UpdateMessageWriter) {
+				vrt.GoWorld("writer-"+peer, func() {
+					vrt.Sleep(3 * time.Second)
+					for n, l := range []int{4077, 23, 0, 1000} {
+						b := bytes.Repeat([]byte{peer[1]}, l)
+						if l >= 4 {
+							copy(b, []byte{peer[0], peer[1], '-', byte('0' + n)})
+						}
+						if wr.WriteUpdate(b) == nil {
+							okWrites[peer] = append(okWrites[peer], b)
+						}
+					}
+				})
+			}
+			return pl
+		}
+		w.NW.OnDial(remAddr, func(att int, from *net.TCPAddr) vnet.DialOutcome {
+			if att > 0 {
+				return vnet.DialOutcome{Kind: vnet.DialRefuse}
+			}
+			return vnet.DialOutcome{Kind: vnet.DialAccept, Serve: func(c *vnet.Conn) {
+				r := w.NewRemote(c, "P1")
+				defer r.Finish()
+				if !reach(r, stEstablished, 65002, 9) {
+					return
+				}
+				r.Deadline(0)
+				r.Drain()
+			}}
+		})
+		if err := w.Server.AddPeer(peerConfig(remIP, 65001, 65002), mk("P1"), corebgp.WithHoldTime(9), corebgp.WithDialerControl(w.DialControl("P1"))); err != nil {
+			panic("harness: " + err.Error())
+		}
+		if err := w.Server.AddPeer(peerConfig(remIP2, 65001, 65003), mk("P2"), corebgp.WithHoldTime(9), corebgp.WithPassive()); err != nil {
+			panic("harness: " + err.Error())
+		}
+		w.Serve(libAddr)
+		vrt.GoWorld("remote-p2", func() {
+			c, err := w.NW.DialIn("10.0.0.3:40002", libAddr)
+			if err != nil {
+				return
+			}
+			r := w.NewRemote(c, "P2")
+			defer r.Finish()
+			if !reach(r, stEstablished, 65003, 9) {
+				return
+			}
+			r.Deadline(0)
+			r.Drain()
+		})
+		vrt.Sleep(7 * time.Second)
+		w.Close()
+		w.WaitServeDone()
+	})
+	return w, e, okWrites
+}
+
+func c04TwoPeersJudge(w *world.World, okWrites map[string][][]byte) (string, string) {
+	seen := map[string]map[string]int{"P1": {}, "P2": {}}
+	for _, c := range w.NW.Conns {
+		if !c.Lib {
+			continue
+		}
+		host, _, _ := net.SplitHostPort(c.RemoteAddr().String())
+		peer := peerNameOf(host)
+		ms, rest, err := wire.ParseStrict(c.Sent)
+		if err != nil {
+			return "malformed-output", fmt.Sprintf("%s (%s): bytes written by corebgp are not a sequence of well-formed messages: %v", c, peer, err)
+		}
+		if len(rest) > 0 {
+			return "partial-message", fmt.Sprintf("%s (%s): the byte stream ends inside a message (%d stray bytes)", c, peer, len(rest))
+		}
+		for _, m := range ms {
+			if m.Type != wire.TypeUpdate {
+				continue
+			}
+			if _, isMarker := world.IsMarker(m.Body); isMarker {
+				continue
+			}
+			if len(m.Body) >= 2 && string(m.Body[:2]) != peer && (m.Body[0] == 'P') {
+				return "update-on-wrong-peer", fmt.Sprintf("%s belongs to %s but carries an UPDATE written for %s (%x..)", c, peer, m.Body[:2], trunc(m.Body))
+			}
+			if seen[peer] != nil {
+				seen[peer][string(m.Body)]++
+			}
+		}
+	}
+	for peer, bodies := range okWrites {
+		for _, b := range bodies {
+			if n := seen[peer][string(b)]; n != 1 {
+				return "successful-write-missing", fmt.Sprintf("a WriteUpdate of %s (%d bytes %x..) returned nil but the body is on its connection %d times", peer, len(b), trunc(b), n)
+			}
+		}
+		if len(bodies) != 4 {
+			return "write-failed", fmt.Sprintf("%s: %d of 4 writes on a healthy session succeeded", peer, len(bodies))
+		}
+	}
+	return monitorCallbacks(w)
 }
